@@ -39,6 +39,9 @@ CHECKS = {
  "C06": dict(technique="choice-prefix DFS over interference placements at every instruction boundary (VerifStep) + provenance of every draw (VerifRoll) + resume at every statement split",
              text="For every program of a pool covering each randomness-reaching construct x seeds, every placement of <=2 interfering actions on other contexts / the process-wide generators at every instruction boundary of every sub-VM is executed and must leave value, detail text, draw count and final generator state unchanged; every draw must come from the context's own generator; re-seeding the process-wide generators must not matter; capture/install of the generator state must continue the identical sequence at every split of every statement list.",
              note="Program pool and interfering-action alphabet are finite lists in c06.go; interference is injected at instruction boundaries (not inside an instruction).", ref="DESIGN.md §4 C06"),
+ "C14": dict(technique="choice-prefix DFS over every die face of every expression of a bounded family; independent parser/evaluator of the process text",
+             text="For every expression of <=3 terms over 21 term kinds (every dice family, nested/chained dice, variables incl. a multi-byte name, a computed dice variable) with + - *, parentheses, unary minus and 5 spacing variants incl. line breaks, every face sequence is executed: the text minus annotations must be the source with rolls replaced by rule-computed values and must evaluate to the result; each annotation must name its term and list exactly the faces drawn; requesting the text twice must be idempotent and change nothing (result, variables, generator state, draws).",
+             note="Faces beyond the 6th (thorough 10th) die default to 1; D100 takes 8 representative faces; the annotation grammar accepted by the oracle is restated in c14.go.", ref="DESIGN.md §4 C14"),
 }
 PENDING = {}
 def main():
